@@ -256,7 +256,9 @@ theorem sent_in_flight_algo (e : Eng) (cancels : List CancelReq) (opens : List O
 
 /-- (3)+(4) no in-flight mark without a send: an order `(i, c)` that no sent request of the tick
 names keeps exactly its tracked state — in particular requests that failed or were refused by
-the risk manager leave no mark. -/
+the risk manager leave no mark. (Precisely: the premise is "no SENT request names `(i, c)`"; when a
+sibling request with the same `(instrument, client order id)` IS sent in the same call, the order
+shows that sibling's mark. Command paths: `unsent_leaves_no_mark_command`.) -/
 theorem unsent_leaves_no_mark (e : Eng) (cancels : List CancelReq) (opens : List OpenReq)
     (refuse : Key → Bool) (i c : Nat) :
     let r := generateAlgoOrders e cancels opens refuse
@@ -894,5 +896,163 @@ def demoPos : Eng :=
                               ⟨1, 2, 3, [], none, none⟩] }
 example : (action demoPos (.closePositions .none)).2.opens.sent = [⟨⟨0, 0, closeCid 0⟩, .sell, 100, 2⟩] ∧
     (action demoPos (.cancelOrders .none)).2.cancels.sent = [⟨⟨0, 0, 5⟩, some 9⟩] := by decide +kernel
+
+/-! ### (3, M2) failed requests at the level of the whole tick -/
+
+/-- the failed requests of one output, with their errors -/
+def failedOf (cs : SendOut CancelReq) (os : SendOut OpenReq) : List (Req × SendError) :=
+  cs.errors.map (fun x => (Req.cnl x.1, x.2)) ++ os.errors.map (fun x => (Req.opn x.1, x.2))
+
+/-- every request a tick reports as FAILED, with its error -/
+def Audit.failedReqs (a : Audit) : List (Req × SendError) :=
+  (match a.commanded with
+    | some c => failedOf c.cancels c.opens
+    | none => []) ++
+  (match a.generated with
+    | some g => failedOf g.cancels g.opens
+    | none => [])
+
+theorem sendRequests_links_facts {α : Type} (e : Eng) (toReq : α → Req) (rs : List α) :
+    (∀ q ∈ (sendRequests e toReq rs).2.sent, linkResult e.links (toReq q).key.exchange = none) ∧
+    (∀ q err, (q, err) ∈ (sendRequests e toReq rs).2.errors →
+      linkResult e.links (toReq q).key.exchange = some err) := by
+  refine ⟨?_, ?_⟩
+  · intro q hq
+    simp only [sendRequests, List.mem_filter] at hq
+    simpa using hq.2
+  · intro q err h
+    exact ((send_requests_partition e toReq rs).2.2.1 q err |>.mp h).2
+
+theorem action_links_facts (e : Eng) (c : Command) :
+    (∀ q ∈ (action e c).2.cancels.sent, linkResult e.links q.key.exchange = none) ∧
+    (∀ q ∈ (action e c).2.opens.sent, linkResult e.links q.key.exchange = none) ∧
+    (∀ q err, (q, err) ∈ (action e c).2.cancels.errors → linkResult e.links q.key.exchange = some err) ∧
+    (∀ q err, (q, err) ∈ (action e c).2.opens.errors → linkResult e.links q.key.exchange = some err) ∧
+    (action e c).1.links = e.links := by
+  cases c with
+  | sendCancelRequests rs =>
+    have h := sendRequests_links_facts e Req.cnl rs
+    exact ⟨h.1, by intro q hq; simp [action, SendOut.empty] at hq, h.2,
+      by intro q err hq; simp [action, SendOut.empty] at hq, (recordCancels_log _ _).2.1⟩
+  | sendOpenRequests rs =>
+    have h := sendRequests_links_facts e Req.opn rs
+    exact ⟨by intro q hq; simp [action, SendOut.empty] at hq, h.1,
+      by intro q err hq; simp [action, SendOut.empty] at hq, h.2, (recordOpens_log _ _).2.1⟩
+  | closePositions f =>
+    have h := sendRequests_links_facts (sendRequests e Req.cnl []).1 Req.opn (closeRequests e f)
+    refine ⟨by intro q hq; simp [action, sendRequests] at hq, h.1,
+      by intro q err hq; simp [action, sendRequests] at hq, h.2, ?_⟩
+    simp only [action]
+    rw [(recordOpens_log _ _).2.1, (recordCancels_log _ _).2.1]; rfl
+  | cancelOrders f =>
+    have h := sendRequests_links_facts e Req.cnl (cancelRequests e f)
+    exact ⟨h.1, by intro q hq; simp [action, SendOut.empty] at hq, h.2,
+      by intro q err hq; simp [action, SendOut.empty] at hq, (recordCancels_log _ _).2.1⟩
+
+theorem generate_links_facts (e : Eng) (cs : List CancelReq) (os : List OpenReq) (refuse : Key → Bool) :
+    let g := (generateAlgoOrders e cs os refuse).2
+    (∀ q ∈ g.cancels.sent, linkResult e.links q.key.exchange = none) ∧
+    (∀ q ∈ g.opens.sent, linkResult e.links q.key.exchange = none) ∧
+    (∀ q err, (q, err) ∈ g.cancels.errors → linkResult e.links q.key.exchange = some err) ∧
+    (∀ q err, (q, err) ∈ g.opens.errors → linkResult e.links q.key.exchange = some err) := by
+  intro g
+  have h1 := sendRequests_links_facts e Req.cnl (cs.filter fun r => !refuse r.key)
+  have h2 := sendRequests_links_facts (sendRequests e Req.cnl (cs.filter fun r => !refuse r.key)).1
+    Req.opn (os.filter fun r => !refuse r.key)
+  exact ⟨h1.1, h2.1, h1.2, h2.2⟩
+
+theorem stateBeforeGeneration_links (e : Eng) (ev : Event) :
+    (stateBeforeGeneration e ev).links = e.links := by
+  cases ev with
+  | shutdown => rfl
+  | command c => exact (action_links_facts e c).2.2.2.2
+  | tradingState on =>
+    simp only [stateBeforeGeneration, stateBeforeRequests]; unfold updateTradingState; split <;> rfl
+  | update u => cases u <;> rfl
+
+/-- (1)+(3), whole tick: every request a tick reports as SENT is addressed to an exchange whose link is
+healthy, and every request it reports as FAILED carries exactly the error of its exchange's link (the
+link table as it was when the tick began): … -/
+theorem process_sent_healthy_failed_error (e : Eng) (ev : Event) (algoC : List CancelReq)
+    (algoO : List OpenReq) (refuse : Key → Bool) :
+    (∀ r ∈ Audit.sentReqs (process e ev algoC algoO refuse).2,
+      linkResult e.links r.key.exchange = none) ∧
+    (∀ r err, (r, err) ∈ Audit.failedReqs (process e ev algoC algoO refuse).2 →
+      linkResult e.links r.key.exchange = some err) := by
+  obtain ⟨hc, hg⟩ := process_shape e ev algoC algoO refuse
+  have hl := stateBeforeGeneration_links e ev
+  have hgen := generate_links_facts (stateBeforeGeneration e ev) algoC algoO refuse
+  rw [hl] at hgen
+  -- the commanded part
+  have hcmdS : ∀ r, r ∈ (match commandedOf e ev with
+      | some c => c.cancels.sent.map Req.cnl ++ c.opens.sent.map Req.opn | none => []) →
+      linkResult e.links r.key.exchange = none := by
+    intro r hr
+    cases ev with
+    | command c =>
+      have ha := action_links_facts e c
+      simp only [commandedOf, List.mem_append, List.mem_map] at hr
+      rcases hr with ⟨q, hq, rfl⟩ | ⟨q, hq, rfl⟩
+      · exact ha.1 q hq
+      · exact ha.2.1 q hq
+    | shutdown => simp [commandedOf] at hr
+    | tradingState on => simp [commandedOf] at hr
+    | update u => simp [commandedOf] at hr
+  have hcmdF : ∀ r err, (r, err) ∈ (match commandedOf e ev with
+      | some c => failedOf c.cancels c.opens | none => []) →
+      linkResult e.links r.key.exchange = some err := by
+    intro r err hr
+    cases ev with
+    | command c =>
+      have ha := action_links_facts e c
+      simp only [commandedOf, failedOf, List.mem_append, List.mem_map] at hr
+      rcases hr with ⟨⟨q, er⟩, hq, heq⟩ | ⟨⟨q, er⟩, hq, heq⟩
+      · injection heq with h1 h2; subst h1; subst h2; exact ha.2.2.1 q er hq
+      · injection heq with h1 h2; subst h1; subst h2; exact ha.2.2.2.1 q er hq
+    | shutdown => simp [commandedOf] at hr
+    | tradingState on => simp [commandedOf] at hr
+    | update u => simp [commandedOf] at hr
+  refine ⟨?_, ?_⟩
+  · intro r hr
+    simp only [Audit.sentReqs, hc, List.mem_append] at hr
+    rcases hr with hr | hr
+    · exact hcmdS r hr
+    · rcases hg with ⟨hn, _⟩ | ⟨hs, _⟩
+      · rw [hn] at hr; cases hr
+      · rw [hs] at hr
+        simp only [List.mem_append, List.mem_map] at hr
+        rcases hr with ⟨q, hq, rfl⟩ | ⟨q, hq, rfl⟩
+        · exact hgen.1 q hq
+        · exact hgen.2.1 q hq
+  · intro r err hr
+    simp only [Audit.failedReqs, hc, List.mem_append] at hr
+    rcases hr with hr | hr
+    · exact hcmdF r err hr
+    · rcases hg with ⟨hn, _⟩ | ⟨hs, _⟩
+      · rw [hn] at hr; cases hr
+      · rw [hs] at hr
+        simp only [failedOf, List.mem_append, List.mem_map] at hr
+        rcases hr with ⟨⟨q, er⟩, hq, heq⟩ | ⟨⟨q, er⟩, hq, heq⟩
+        · injection heq with h1 h2; subst h1; subst h2; exact hgen.2.2.1 q er hq
+        · injection heq with h1 h2; subst h1; subst h2; exact hgen.2.2.2 q er hq
+
+/-- (3, M2) … hence a request the tick reports as failed is in NO delivery of that tick: it is not
+among the requests the tick reports as sent, i.e. (by `process_delivers_exactly_sent`) not in what
+the tick appended to the delivery log — neither through the call that failed nor through any other
+call of the same tick. -/
+theorem process_failed_not_delivered (e : Eng) (ev : Event) (algoC : List CancelReq)
+    (algoO : List OpenReq) (refuse : Key → Bool) (r : Req) (err : SendError)
+    (h : (r, err) ∈ Audit.failedReqs (process e ev algoC algoO refuse).2) :
+    r ∉ Audit.sentReqs (process e ev algoC algoO refuse).2 ∧
+    (process e ev algoC algoO refuse).1.log = e.log ++ Audit.sentReqs (process e ev algoC algoO refuse).2 := by
+  have hf := process_sent_healthy_failed_error e ev algoC algoO refuse
+  refine ⟨?_, process_delivers_exactly_sent e ev algoC algoO refuse⟩
+  intro hs
+  have h1 := hf.1 r hs
+  have h2 := hf.2 r err h
+  rw [h1] at h2; cases h2
+
+example : Audit.failedReqs (process demo (.command (.sendOpenRequests [o0, o1])) [] [] (fun _ => false)).2
+    = [(.opn o1, .terminated)] := by decide +kernel
 
 end BarterModel.Props.C03
